@@ -8,6 +8,8 @@
 * the method classes of src/http/RequestMethod.cc (`isHttpSafe`, `isIdempotent`, `respMaybeCacheable`, `shouldInvalidate`)
   after resolving the `#if NAME` blocks against include/autoconf.h;
 * whether `HttpHeader::getCc` (src/HttpHeader.cc) parses the joined list or each field line (flag `ccParsedPerLine`);
+* whether the 304 branch of `clientReplyContext::handleIMSReply` (src/client_side_reply.cc) releases an entry refreshed by a 304
+  that carries no-store/private (flag `notModifiedHonoursNoStore`);
 * USE_HTTP_VIOLATIONS (include/autoconf.h), `neighbors_do_private_keys` (src/globals.cc), the defaults of `negative_ttl`,
   `minimum_expiry_time`, `max_stale` and the stock `refresh_pattern` lines (src/cf.data.pre), REFRESH_DEFAULT_* of the built-in rule.
 """
@@ -301,6 +303,21 @@ def cc_per_line(stage):
     return per_line
 
 
+def nm_honours_no_store(stage):
+    """whether the 304 branch of clientReplyContext::handleIMSReply releases the refreshed entry when the 304 carries no-store/private"""
+    src = strip_comments(stage.read("src/client_side_reply.cc"))
+    body = norm(function_body(src, r"clientReplyContext::handleIMSReply\s*\([^)]*\)\s*\{", "clientReplyContext::handleIMSReply"))
+    m = _need(re.search(r"if \(status == Http::scNotModified\) \{(.*?)sendClientOldEntry\(\); return; \}", body), "the 304 branch of handleIMSReply")
+    branch = m.group(1)
+    _need("Store::Root().updateOnNotModified(old_entry, *http->storeEntry())" in branch, "updateOnNotModified in the 304 branch")
+    guard = "if (const auto cc = new_rep.cache_control) { if (cc->hasNoStore() || cc->hasPrivate()) old_entry->releaseRequest(); }"
+    if guard in branch:
+        return True
+    if "release" in branch.replace("old_entry->release(true); restoreState();", "") or "hasNoStore" in branch or "hasPrivate" in branch:
+        raise Restructured("translate/reusable.py: the 304 branch of handleIMSReply treats no-store/private in a way the model does not know")
+    return False
+
+
 def lean_bytes(s):
     return "[" + ", ".join(str(b) for b in s.encode("latin-1")) + "]"
 
@@ -346,6 +363,8 @@ def generate(stage):
               "def useHttpViolations : Bool := %s" % ("true" if violations else "false"),
               "/-- HttpHeader::getCc parses every Cache-Control field line on its own (true) or the \", \"-joined list of all lines (false) -/",
               "def ccParsedPerLine : Bool := %s" % ("true" if cc_per_line(stage) else "false"),
+              "/-- the 304 branch of clientReplyContext::handleIMSReply releases the refreshed entry when the 304 carries no-store or private -/",
+              "def notModifiedHonoursNoStore : Bool := %s" % ("true" if nm_honours_no_store(stage) else "false"),
               "def neighborsDoPrivateKeys : Bool := %s" % ("true" if int(g.group(1)) else "false"),
               "def defaultNegativeTtl : Int := %d" % neg,
               "def defaultMinimumExpiryTime : Int := %d" % mint,
